@@ -371,6 +371,21 @@ static int replay_C06(const Args&)
    sink_is(*lex.make_break(), "Stmt", Category_code::Break, "break is a statement");
    sink_is(*r->declare_var(x, i), "Decl", Category_code::Var, "a variable is a declaration");
    sink_is(r->bindings(), "Expr", Category_code::Scope, "a scope is an expression");
+   // view<K> is a function of the node alone: a node of another category living where a probed node used to live is not a K
+   {
+      alignas(16) static unsigned char slot[sizeof(impl::Identifier) > sizeof(impl::Operator) ? sizeof(impl::Identifier) : sizeof(impl::Operator)];
+      const String& s1 = lex.get_string(u8"alpha"); const String& s2 = lex.get_string(u8"+");
+      auto* a = new (slot) impl::Identifier(s1);
+      bool first = util::view<Identifier>(*a) == a && util::view<Operator>(*a) == nullptr;
+      a->~Identifier();
+      auto* b = new (slot) impl::Operator(s2);
+      bool second = util::view<Identifier>(*static_cast<const Node*>(b)) == nullptr && util::view<Operator>(*b) == b;
+      b->~Operator();
+      auto* c = new (slot) impl::Identifier(s1);
+      bool third = util::view<Identifier>(*c) == c && util::view<Operator>(*static_cast<const Node*>(c)) == nullptr;
+      c->~Identifier();
+      CLAUSE(first && second && third, "view<K> answers for the node that lives at an address now, not for one that lived there before");
+   }
    return fails;
 }
 
@@ -514,7 +529,8 @@ static int replay_C18(const Args& a)
                            lex.make_phased_evaluation(*one, Phases::Elaboration) };
       for (auto* e : es) { print(*e, out, fl, ind); CLAUSE(true, "printing an unsupported expression kind completes or raises std::logic_error"); }
       for (auto* e : es) { std::ostringstream os; Printer pp { lex, os }; try { pp << xpr_stmt(*e); } catch (const std::logic_error&) { } CLAUSE(true, "printing it as a statement completes or raises std::logic_error"); }
-      const Type* ts[] = { &lex.get_decltype(*one), &lex.get_pointer(i), &lex.get_as_type(*one), &lex.get_qualified(lex.const_qualifier(), i), &lex.get_array(i, *one) };
+      const Type* ts[] = { &lex.get_decltype(*one), &lex.get_pointer(i), &lex.get_as_type(*one), &lex.get_qualified(lex.const_qualifier(), i), &lex.get_array(i, *one),
+                           lex.make_class(*unit.global_region()), lex.make_union(*unit.global_region()), lex.make_enum(*unit.global_region(), Enum::Kind::Legacy), lex.make_namespace(*unit.global_region()), lex.make_closure(*unit.global_region()) };      // unnamed user-defined types included
       for (auto* t : ts) { std::ostringstream os; Printer pp { lex, os }; try { pp << xpr_type(*t); } catch (const std::logic_error&) { } CLAUSE(true, "printing a type completes or raises std::logic_error"); }
    }
    if (want("bytes")) {
@@ -538,7 +554,7 @@ static int replay_C18(const Args& a)
       auto* blk = lex.make_block(*unit.global_region()); blk->add_stmt(*es); blk->new_handler(lex.get_identifier(u8"e"), i)->body().add_stmt(*es);
       const Expr* ss[] = { es, lex.make_labeled_stmt(lbl, *es), lex.make_if(*one, *es), lex.make_if(*one, *es, *es), w, d, f, lex.make_return(*one), lex.make_goto(lbl), lex.make_break(), lex.make_continue(), blk,
                            lex.make_labeled_stmt(lbl, *lex.make_labeled_stmt(lbl, *blk)) };
-      for (auto* st : ss) for (int start : { 0, 3, 9 }) {
+      for (auto* st : ss) for (int start : { 0, 3, 9, 33, 66 }) {
          std::ostringstream os; Printer pp { lex, os }; pp.indent(start); int before = pp.indent();
          try { pp << xpr_stmt(*st); } catch (const std::logic_error&) { }
          bool ctl = false; for (unsigned char ch : os.str()) if (ch < 0x20 && ch != '\n') ctl = true;
